@@ -94,7 +94,7 @@ def check(run):
                     run.violation("method-unusable-with-private-workspace", f"Wigner.{name}[workspace=]", {"method": name}, "result", repr(r[1]))
                     continue
                 alone[(name, which)] = np.array(r[1], copy=True)
-                steps[(name, which)] = n
+                steps[(name, which)] = n + 1   # n kernels + the tail of Python code after the last one
                 used_default = [x for x in log if "default-workspace" in x[2]]
                 if used_default:
                     run.violation("private-call-uses-default-workspace", f"Wigner.{name}[workspace=]", {"method": name, "kernels": [x[1] for x in used_default]}, "no access", "kernel handed the default workspace")
